@@ -26,6 +26,8 @@ protocol, as implemented in bzr 0.11 and later.
 
 import os
 
+from dromedary.errors import NoSuchFile
+
 from ... import urlutils
 from . import request
 
@@ -85,11 +87,58 @@ class VfsRequest(request.SmartServerRequest):
         Args:
             relpath: The relative path from the client.
 
+        The result is still URL-escaped and the backing transport unescapes
+        it once more, after SmartServerRequest.translate_client_path has
+        already normalised "/" and "..". An escaped separator or dot segment
+        ("%2F", "%2E%2E") would therefore only turn into a real one below the
+        normalisation (and below a chroot, which also works on the escaped
+        form), so such paths are refused.
+
+        Args:
+            relpath: The relative path from the client.
+
         Returns:
             A string path suitable for use on the server side.
+
+        Raises:
+            InvalidURL: If a path segment hides a separator or a dot segment
+                behind URL escaping.
         """
         x = request.SmartServerRequest.translate_client_path(self, relpath)
-        return str(urlutils.unescape(x))
+        result = str(urlutils.unescape(x))
+        if self._root_client_path is not None:
+            for segment in result.split("/"):
+                unescaped = urlutils.unescape(segment)
+                if unescaped != segment and (
+                    "/" in unescaped or unescaped in (".", "..")
+                ):
+                    raise urlutils.InvalidURL(
+                        result, "escaped path separator or dot segment"
+                    )
+        return result
+
+    def translate_client_file_path(self, relpath):
+        """Translate the client-side path of a file that is about to be written.
+
+        The root of the backing transport is a directory and can never be
+        written as a file. A transport that writes through a temporary sibling
+        of the target (as the local transport does) would create that temporary
+        file beside the root, i.e. outside of the directory being served, so
+        the root is refused here, with the error such a write ends in anyway.
+
+        Args:
+            relpath: The relative path from the client.
+
+        Returns:
+            A string path suitable for use on the server side.
+
+        Raises:
+            NoSuchFile: If the path names the root of the backing transport.
+        """
+        result = self.translate_client_path(relpath)
+        if all(segment in ("", ".") for segment in result.split("/")):
+            raise NoSuchFile(result)
+        return result
 
 
 class HasRequest(VfsRequest):
@@ -247,7 +296,7 @@ class MoveRequest(VfsRequest):
             SuccessfulSmartServerResponse indicating success.
         """
         rel_from = self.translate_client_path(rel_from)
-        rel_to = self.translate_client_path(rel_to)
+        rel_to = self.translate_client_file_path(rel_to)
         self._backing_transport.move(rel_from, rel_to)
         return request.SuccessfulSmartServerResponse((b"ok",))
 
@@ -262,7 +311,7 @@ class PutRequest(VfsRequest):
             relpath: Relative path to the file to write.
             mode: File mode as bytes, or empty bytes for default.
         """
-        relpath = self.translate_client_path(relpath)
+        relpath = self.translate_client_file_path(relpath)
         self._relpath = relpath
         self._mode = _deserialise_optional_mode(mode)
 
@@ -291,7 +340,7 @@ class PutNonAtomicRequest(VfsRequest):
             create_parent: b'T' to create parent directories, b'F' otherwise.
             dir_mode: Directory mode as bytes, or empty bytes for default.
         """
-        relpath = self.translate_client_path(relpath)
+        relpath = self.translate_client_file_path(relpath)
         self._relpath = relpath
         self._dir_mode = _deserialise_optional_mode(dir_mode)
         self._mode = _deserialise_optional_mode(mode)
